@@ -180,12 +180,20 @@ def gen(sh):
     w("theorem %s.intersectsPoint_iff (b : %s α) (p : %s) : Gen.%s.intersectsPoint b p = true ↔ %s.Mem p b := by" % (S, S, V, S, S))
     w("  simp only [Gen.%s.intersectsPoint, ite_false_iff, ite_false'_iff, not_lt, not_le, %s.Mem, and_assoc, and_true] <;> tauto\n" % (S, S))
     axes_rhs = " ∧ ".join("(%s ≤ %s ∧ %s ≤ %s)" % (f("b.min", a), f("a.max", a), f("a.min", a), f("b.max", a)) for a in A)
-    w("/-- what `intersects(box)` computes, for ALL boxes: per-axis overlap of the min/max pairs -/")
-    w("theorem %s.intersectsBox_iff_axes (a b : %s α) :\n    Gen.%s.intersectsBox a b = true ↔ %s := by" % (S, S, S, axes_rhs))
-    w("  simp only [Gen.%s.intersectsBox, ite_false_iff, ite_false'_iff, not_lt, not_le, and_assoc, and_true] <;> tauto\n" % S)
+    w("/-- for NON-EMPTY boxes `intersects(box)` is per-axis overlap of the min/max pairs (written so that it also holds if the\ncode tests emptiness first) -/")
+    w("theorem %s.intersectsBox_iff_axes_of_nonempty (a b : %s α) (ha : ¬ %s.Inverted a) (hb : ¬ %s.Inverted b) :\n    Gen.%s.intersectsBox a b = true ↔ %s := by" % (S, S, S, S, S, axes_rhs))
+    w("  simp only [%s.Inverted, not_or, not_lt] at ha hb" % S)
+    w("  simp only [Gen.%s.intersectsBox, ite_false_iff, ite_false'_iff, ite_true_iff, not_lt, not_le, and_assoc, and_true] <;> tauto\n" % S)
+    w("theorem %s.not_inverted_of_mem (p : %s) (a : %s α) (h : %s.Mem p a) : ¬ %s.Inverted a :=" % (S, V, S, S, S))
+    w("  fun hi => (%s.isEmptySet_iff a).2 hi p h\n" % S)
     w("theorem %s.intersectsBox_of_common (a b : %s α) (h : ∃ p, %s.Mem p a ∧ %s.Mem p b) :\n    Gen.%s.intersectsBox a b = true := by" % (S, S, S, S, S))
-    w("  obtain ⟨p, %s, %s⟩ := h" % (mem_pat("q"), mem_pat("r")))
-    w("  rw [%s.intersectsBox_iff_axes]; bord\n" % S)
+    w("  obtain ⟨p, hpa, hpb⟩ := h")
+    w("  rw [%s.intersectsBox_iff_axes_of_nonempty a b (%s.not_inverted_of_mem p a hpa) (%s.not_inverted_of_mem p b hpb)]" % (S, S, S))
+    w("  obtain %s := hpa" % mem_pat("q"))
+    w("  obtain %s := hpb" % mem_pat("r"))
+    w("  bord\n")
+    w("theorem %s.intersectsBox_symm (a b : %s α) : Gen.%s.intersectsBox a b = Gen.%s.intersectsBox b a := by" % (S, S, S, S))
+    w("  unfold Gen.%s.intersectsBox; split_ifs <;> first | rfl | (exfalso; bord)\n" % S)
     wit = P(["max %s %s" % (f("a.min", a), f("b.min", a)) for a in A])
     w("theorem %s.common_of_axes (a b : %s α) (ha : ¬ %s.Inverted a) (hb : ¬ %s.Inverted b)\n    (h : %s) :\n    ∃ p, %s.Mem p a ∧ %s.Mem p b := by"
       % (S, S, S, S, axes_rhs, S, S))
